@@ -134,11 +134,15 @@ def _srv1_fields(s):
 def _srv1(a):
     apid, sub, seq, ver, ref, dest, has_vp = a[0]
     vp = _vp(a, 2) if has_vp else None
+    if (seq, ver, ref, dest) == (0, 0, 0, 0):     # the constructor's defaults
+        return s1.Service1Tm(apid, sub, bytes(a[1]), vp) if has_vp else s1.Service1Tm(apid, sub, bytes(a[1]))
     return s1.Service1Tm(apid=apid, subservice=sub, timestamp=bytes(a[1]), verif_params=vp, seq_count=seq,
                          packet_version=ver, space_time_ref=ref, destination_id=dest)
 
 
 def _params(l):
+    if l[1] == 1 and l[2] == 1:
+        return s1.UnpackParams(l[0])          # the documented defaults: one-octet step ID and error code
     return s1.UnpackParams(l[0], l[1], l[2])
 
 
@@ -959,7 +963,10 @@ def harden_streams(tier, rng):
             r = rng.random()
             w = rng.choice(WIDTHS)
             if r < 0.1:
-                ops.append([0] + rand_reqid(rng))
+                q = rand_reqid(rng)
+                if rng.random() < 0.15:
+                    q[rng.choice([3, 5])] = rng.choice([-1, 2 ** 16])     # refused by PacketId / PacketSeqCtrl: nothing changes
+                ops.append([0] + q)
             elif r < 0.2:
                 ops.append([1] + ([1, 8 * w, rand_val(rng, w)] if rng.random() < 0.8 else [0, 0, 0]))
             elif r < 0.3:
